@@ -66,3 +66,22 @@ def run(res, tier, seed, replay):
                 res.violation(f"lifetime {'A (first)' if who == 'a' else 'B (second, begun on another thread while A was alive)'} made {k} matching calls with times: {N} and saw {got[who]}; its own calls alone give {verdict(N, k)}", case, o)
     res.cov["evaluations"] += len(cases); res.cov["traces_validated_against_impl"] += len(cases); res.cov["distinct_nontrivial"] += len({(c[2], c[3] - c[2], c[4] - c[2]) for c in cases})
     res.extra["two_thread_cases"] = len(cases)
+    # many threads, each running hundreds of complete lifetimes through ONE fake!(.., times: N) line with exactly N calls each: the same set-up
+    # code gives the same verdict (no report) every time, whatever the other threads' lifetimes are doing at that moment
+    churn = [(f"u{i}", site, N, nt, (1200 if tier == "quick" else 12000) // nt * 4) for i, (site, N, nt) in enumerate([(1, 1, 16), (2, 2, 8), (3, 3, 16), (7, 7, 4)])]
+    cp = subprocess.run([exe, "count"], input="".join(f"{c[0]} churn {c[1]} {c[3]} {c[4]} {c[2]}\n" for c in churn), capture_output=True, text=True, timeout=1200)
+    cobs = {}
+    for l in cp.stdout.split("\n"):
+        t = l.split(" ", 2)
+        if len(t) >= 2: cobs.setdefault(t[0], {})[t[1]] = t[2] if len(t) > 2 else ""
+    for cid, site, N, nt, rounds in churn:
+        case = dict(id=cid, site=site, N=N, threads=nt, lifetimes_per_thread=rounds, calls_per_lifetime=N, replay=f"real count <<< '{cid} churn {site} {nt} {rounds} {N}'")
+        o = cobs.get(cid, {})
+        if str(o.get("CHILD")).startswith("skipped"): continue
+        want = f"admitted={N},overcalled=0,other=0,exit=normal"
+        if o.get("CHILD") != "exit:0" or "CHURN" not in o:
+            res.violation(f"churn run did not complete ({o.get('CHILD')})", case, str(o)[:400]); continue
+        bad = [g for g in o["CHURN"].split(" ")[1:] if not g.endswith(f"x[{want}]")]
+        if bad: res.violation(f"the same set-up code (times: {N}, exactly {N} calls) did not give the same verdict in every lifetime: besides [{want}] also {' '.join(bad)[:300]}", case, o["CHURN"][:600])
+        res.cov["evaluations"] += nt * rounds
+    res.extra["churn_scopes"] = sum(c[3] * c[4] for c in churn)
